@@ -50,15 +50,15 @@ CONSTANTS Shapes,    \* subset of {"TSS", "TSD", "TSL", "TSB", "TSW"}
           FixF2,
           Emit
 
-VARIABLES shape, now, phase, nops, wrote,
+VARIABLES shape, now, phase, nops, wrote, inval,
           slots, free, pend, added, removed, modified, published, deltaTime, lmt, ksLmt,   \* keyed storage
           kids,                                                                             \* fixed children
           ring, head, count,                                                                \* tick window
           abs, absPre, absW, lastW,                                                         \* level A shadow
           script, obs                                                                       \* history
 impl == <<slots, free, pend, added, removed, modified, published, deltaTime, lmt, ksLmt, kids, ring, head, count>>
-vars == <<shape, now, phase, nops, wrote, impl, abs, absPre, absW, lastW, script, obs>>
-NoHist == <<shape, now, phase, nops, wrote, impl, abs, absPre, absW, lastW>>
+vars == <<shape, now, phase, nops, wrote, inval, impl, abs, absPre, absW, lastW, script, obs>>
+NoHist == <<shape, now, phase, nops, wrote, inval, impl, abs, absPre, absW, lastW>>
 
 Keyed == shape \in {"TSS", "TSD"}
 Fixed == shape \in {"TSL", "TSB"}
@@ -185,6 +185,7 @@ OpSet ==
       [] shape = "TSD" -> {[op |-> "set", p |-> <<k>>, a |-> <<v>>] : k \in Keys, v \in Vals} \cup {[op |-> "del", p |-> <<>>, a |-> <<k>>] : k \in Keys}
                           \cup {[op |-> "clr", p |-> <<>>, a |-> <<>>]}
       [] Fixed         -> {[op |-> "set", p |-> <<i - 1>>, a |-> <<v>>] : i \in 1..NKids, v \in Vals}
+                          \cup {[op |-> "inv", p |-> <<>>, a |-> <<>>]}       \* invalidate the whole bundle / list
       [] shape = "TSW" -> {[op |-> "push", p |-> <<>>, a |-> <<v>>] : v \in Vals}
 
 LiveKeys(st) == {st.slots[s].key : s \in {x \in DOMAIN st.slots : st.slots[x].st = "live"}}
@@ -205,7 +206,15 @@ Do(o) ==
                         [] o.op = "clr" -> EmptyFn
             /\ absW' = CASE o.op = "set" -> absW \cup {o.p[1]} [] o.op = "del" -> absW \ {o.a[1]} [] o.op = "clr" -> {}
             /\ UNCHANGED <<kids, ring, head, count>>
-      [] Fixed ->
+      [] Fixed /\ o.op = "inv" ->
+            \* TSDataMutationView::invalidate: nothing to do without a current value; otherwise every child with a value is
+            \* invalidated first (its stamp cleared), then the parent's own stamp is cleared
+            /\ kids' = IF lmt = 0 THEN kids ELSE [i \in DOMAIN kids |-> [v |-> kids[i].v, lmt |-> 0]]
+            /\ lmt' = 0
+            /\ abs' = IF lmt = 0 THEN abs ELSE [i \in DOMAIN abs |-> [ok |-> FALSE, v |-> 0]]
+            /\ absW' = IF lmt = 0 THEN absW ELSE {}
+            /\ UNCHANGED <<slots, free, pend, added, removed, modified, published, deltaTime, ksLmt, ring, head, count>>
+      [] Fixed /\ o.op # "inv" ->
             LET i == o.p[1] + 1 IN
             /\ kids' = [kids EXCEPT ![i] = [v |-> o.a[1], lmt |-> Rec(@.lmt, now)]]
             /\ lmt' = IF Changed(kids[i].lmt, now) THEN Rec(lmt, now) ELSE lmt      \* the parent is notified once per cycle and child
@@ -243,9 +252,9 @@ Obs ==
                         IN  [i \in DOMAIN ks |-> LET s == CHOOSE x \in liveS : KeyOf(x) = ks[i]
                                                  IN  <<ks[i], slots[s].cv, IF slots[s].clmt = now THEN 1 ELSE 0>>]]
       [] Fixed ->
-            [t |-> now, m |-> IF m THEN 1 ELSE 0, ok |-> IF lmt # 0 THEN 1 ELSE 0, lmt |-> lmt,
+            [t |-> now, m |-> IF m THEN 1 ELSE 0, ok |-> IF lmt # 0 THEN 1 ELSE 0, lmt |-> lmt, iv |-> IF inval THEN 1 ELSE 0,
              mi |-> Sorted({i - 1 : i \in {j \in 1..NKids : kids[j].lmt = now}}),
-             cv |-> [i \in 1..NKids |-> <<kids[i].v, IF kids[i].lmt = now THEN 1 ELSE 0, IF kids[i].lmt # 0 THEN 1 ELSE 0>>]]
+             cv |-> [i \in 1..NKids |-> <<IF kids[i].lmt # 0 THEN kids[i].v ELSE 0, IF kids[i].lmt = now THEN 1 ELSE 0, IF kids[i].lmt # 0 THEN 1 ELSE 0>>]]
       [] shape = "TSW" ->
             [t |-> now, m |-> IF m THEN 1 ELSE 0, ok |-> IF lmt # 0 THEN 1 ELSE 0, lmt |-> lmt,
              v |-> [i \in 1..count |-> ring[((head + i - 2) % WinN) + 1]]]
@@ -255,7 +264,7 @@ Obs ==
 (***************************************************************************)
 Init ==
     /\ shape \in Shapes
-    /\ now = 1 /\ phase = "start" /\ nops = 0 /\ wrote = FALSE
+    /\ now = 1 /\ phase = "start" /\ nops = 0 /\ wrote = FALSE /\ inval = FALSE
     /\ slots = [i \in 1..Cap0 |-> FreeSlot] /\ free = [i \in 1..Cap0 |-> Cap0 + 1 - i] /\ pend = <<>>
     /\ added = {} /\ removed = {} /\ modified = {} /\ published = {} /\ deltaTime = 0 /\ lmt = 0 /\ ksLmt = 0
     /\ kids = [i \in 1..3 |-> [v |-> 0, lmt |-> 0]]
@@ -266,13 +275,13 @@ Init ==
     /\ script = <<>> /\ obs = <<>>
 
 WriterRuns == /\ phase = "start"
-              /\ phase' = "writing" /\ nops' = 0 /\ wrote' = FALSE
+              /\ phase' = "writing" /\ nops' = 0 /\ wrote' = FALSE /\ inval' = FALSE
               /\ absPre' = abs /\ absW' = {}
               /\ script' = Append(script, [t |-> now, ops |-> <<>>])
               /\ UNCHANGED <<shape, now, impl, abs, lastW, obs>>
 
 WriterSkips == /\ phase = "start"
-               /\ phase' = "observe" /\ wrote' = FALSE /\ nops' = 0
+               /\ phase' = "observe" /\ wrote' = FALSE /\ nops' = 0 /\ inval' = FALSE
                /\ absPre' = abs /\ absW' = {}
                /\ UNCHANGED <<shape, now, impl, abs, lastW, script, obs>>
 
@@ -281,12 +290,16 @@ Op == /\ phase = "writing"
       /\ \E o \in OpSet :
             /\ Do(o)
             /\ script' = [script EXCEPT ![Len(script)].ops = Append(@, o)]
-      /\ nops' = nops + 1 /\ wrote' = TRUE /\ lastW' = now
+            /\ IF o.op = "inv"
+               THEN /\ wrote' = (IF lmt = 0 THEN wrote ELSE FALSE) /\ lastW' = (IF lmt = 0 THEN lastW ELSE 0)
+                    /\ inval' = (inval \/ lmt # 0)
+               ELSE /\ wrote' = TRUE /\ lastW' = now /\ inval' = inval
+      /\ nops' = nops + 1
       /\ UNCHANGED <<shape, now, phase, absPre, obs>>
 
 EndWrite == /\ phase = "writing"
             /\ phase' = "observe"
-            /\ UNCHANGED <<shape, now, nops, wrote, impl, abs, absPre, absW, lastW, script, obs>>
+            /\ UNCHANGED <<shape, now, nops, wrote, inval, impl, abs, absPre, absW, lastW, script, obs>>
 
 Observe == /\ phase = "observe"
            /\ obs' = Append(obs, Obs)
@@ -294,7 +307,7 @@ Observe == /\ phase = "observe"
               THEN /\ phase' = "done" /\ now' = now
                    /\ (Emit => PrintT(<<"COLL", ToJson([shape |-> shape, end |-> MaxT, late |-> 2, script |-> script, obs |-> obs'])>>))
               ELSE /\ phase' = "start" /\ now' = now + 1
-           /\ UNCHANGED <<shape, nops, wrote, impl, abs, absPre, absW, lastW, script>>
+           /\ UNCHANGED <<shape, nops, wrote, inval, impl, abs, absPre, absW, lastW, script>>
 
 Next == WriterRuns \/ WriterSkips \/ Op \/ EndWrite \/ Observe
 Spec == Init /\ [][Next]_vars
